@@ -27,8 +27,9 @@ Step ==
           /\ Check("C01.cursor-read-under-header", c, l, complete => C01api_ReadUnderHeader(t, calls, rets))
           /\ Check("C10.cursor-blank-equals-absent", c, l, complete => C10api_BlankEqualsAbsent(t, calls, rets))
           /\ Check("C09.cursor-warning-describes-row", c, l, complete => (C09api_WarningDescribesRow(t, calls, final) /\ e.fileOk))
-          /\ Check("C09.cursor-missing-keys", c, l, complete => C09api_MissingKeys(t, calls, rets))
-          /\ drift' = drift + (IF complete /\ rets = Run(t, calls) /\ e.closeErr = "" THEN 0 ELSE 1)
+          (* which required blanks MissingRowKeys lists, and when (as they are read, or all of the row's at once), is a  *)
+          (* contract between the cursor and its callers, not a clause of a property: compared as drift               *)
+          /\ drift' = drift + (IF complete /\ rets = Run(t, calls) /\ e.closeErr = "" /\ C09api_MissingKeys(t, calls, rets) THEN 0 ELSE 1)
     /\ l' = l + 1
     /\ (l = Len(Trace) => PrintT(<<"DRIFT", drift'>>))
 Spec == Init /\ [][Step]_<<l, drift>>
